@@ -1,47 +1,95 @@
 """C06 — estimands mention only distributions the analyst actually has.
 
-One check over several algorithm families.  `SOURCES` lists, per family,
-    (name, case generator(rng, tier) -> cases, runner(case) -> raw y0 estimand or None, vocabulary predicate
-     (estimand, case) -> None | message, model request(case) -> line | None, model canon(case, reply))
-so that the integrator can plug in TRSO / ID* / IDC* from the other families (their cases, runners and the
-vocabulary predicates `transport_vocab`, `single_world_vocab` below).  Present now: ID and IDC.
+One check over the five identification algorithms.  `SOURCES` lists, per algorithm, a record with
+    name      "id" | "idc" | "trso" | "idstar" | "idcstar"
+    cases     (rng, tier) -> cases of that algorithm's input space (the generator of the owning family, sub-seeded)
+    py        case -> run_python result: runs the REAL algorithm, walks the RAW estimand(s) it returns
+    request   case -> request line for the Lean model (the request function of the owning family)
+    model     (case, reply) -> the model's outcome class + the verdict of the SAME walk on the encoded model output
+    shrink    case -> smaller cases;   key  case -> finding key
 
-Oracle: a syntactic walk over the REAL output (`obs_only`): every leaf is a plain `Probability` (no population
-tag), every variable in it and every range variable of a `Sum` is a plain `Variable` (no star, not an
-`Intervention`, not a `CounterfactualVariable`) naming a node of the user's graph; no Q-factor.
-Correspondence: the same runs as C01 / C03 (the model's output must pass the same walk — it is compared with the
-real output structurally by those checks; here the outcome class and the walk verdict are compared).
+Oracle (written from the property statement; never looks at the Lean model): a syntactic walk over the real output.
+`_walk` visits EVERYTHING: every probability leaf with its children and its conditioning side, every range variable
+of every Sum, numerator and denominator of every Fraction, every factor of every Product; anything that is not
+one of these constructors (a Q-factor, a foreign object) is reported as a non-probability leaf.
+
+  ID / IDC  (`obs_only`)      every leaf is a plain `Probability` (no population tag); every variable in it and every
+                              Sum range is a plain `Variable` (no star, not an `Intervention`, not a
+                              `CounterfactualVariable`) that names a node of the user's graph.
+  TRSO      (`transport_vocab`) every leaf carries a population tag and is either a TARGET term (population pi*, no
+                              variable carries a subscript) or a term of a DECLARED source domain all of whose
+                              variables carry one and the same subscript set, a subset of the experimental variables
+                              the user declared FOR THAT domain; no variable, subscript or Sum range is a selection
+                              node (`T_…`) or names anything outside the user's graph; no bare `Intervention` value.
+  ID* / IDC* (`single_world_vocab`) in every leaf all variables (children and conditioning side) carry the same set of
+                              subscripts (name and star): the leaf is a term of one interventional world.
+
+Correspondence: the Lean model is asked the same query (request functions of C01 / C03 / C05 / C07 / C08); its encoded
+output is walked with the same predicate written on the encoding (`_enc_*`), and (outcome class, walk verdict) must
+agree with the real code's — for ID* / IDC* under every iteration order of the worlds and of district nodes.  The
+estimands themselves are compared (structurally / by exact evaluation) by the checks of the owning properties.
 """
 from __future__ import annotations
 
+import importlib
 import json
+import logging
 import random
+import re
 
 from .. import common as C
 from .. import gen_graph as G
+from ..oracles import cf_common as K
 from ..oracles import id_run as R
-from . import c01, c03
+from . import c01, c03, c05, c07, c08, c18
 
 PROP = "C06"
-RULE = ("the C01 query stream (ID) and the C03 query stream (IDC) incl. textbook corpus; every returned estimand is walked "
-        "syntactically. A case is non-trivial when an estimand was returned and the run used one of ID's lines 4-7 "
-        "(the lines that build new terms).")
+TARGET = c05.TARGET            # integer name of the target population pi* (source domain k is TARGET + 1 + k)
+RULE = ("five sub-streams, one per algorithm, each from the generator of the owning property with an own sub-seed: "
+        "ID = the C01 query stream, IDC = the C03 stream (textbook corpus first); TRSO = the identify cases of the C05 "
+        "stream (paper examples, past witnesses, random ADMGs with 2-6 nodes x 0-2 source domains, perturbed corpus) plus "
+        "a structured stream of TWO source domains that share an experimental variable with the target interventions, one "
+        "declaring a strict subset of the other's experiments, in both insertion orders (the only inputs on which several "
+        "domains pass line 6 at once); ID* = the C07 event stream, IDC* = the C08 (outcomes, conditions) stream, each "
+        "run under every iteration order of the worlds / district nodes and once unpatched. Every estimand returned by "
+        "the real code is walked syntactically (all leaves, conditioning sides, Sum ranges, fraction parts). A case is "
+        "non-trivial when an estimand was returned and the run built new terms: ID / IDC used one of lines 4-7; TRSO "
+        "reached one of lines 4, 6, 9, 10; ID* / IDC* answered with a proper estimand (not One / Zero) for an event with "
+        "at least one counterfactual world on a graph with an edge.")
 ASSUMPTIONS = [
-    "ID / IDC: theorems id_vocab / idc_vocab (Props/C06Id.lean) are invariants of the recursion of the Lean models; they assume only that topological_sort lists nodes of the graph",
-    "the vocabularies of TRSO, ID* and IDC* are decided by the walks `transport_vocab` / `single_world_vocab` once their families register a source here; their theorems live in the files of those families",
+    "ID / IDC: theorems id_vocab, identifyOutcomes_vocab, idc_vocab (Props/C06Id.lean) are invariants of the recursion of "
+    "the Lean models; they assume only that topological_sort lists nodes of the graph (TopoNodes)",
+    "TRSO: theorem trso_vocab (Props/C06Transport.lean) proves for the model: every leaf is tagged, target leaves are plain, "
+    "source leaves belong to a declared domain and all their variables carry ONE non-empty subscript set inside that "
+    "domain's declared experiments, no leaf / range is a selection node. 'Every mentioned name is a node of the user's "
+    "graph' is NOT part of the Lean statement for TRSO (only 'is not a selection node'); it is decided by the walk of "
+    "the real output on every run",
+    "ID* / IDC*: theorems idstar_vocab, idcstar_vocab_c06 (Props/C06Cf.lean) hold for every graph, event, fuel and "
+    "iteration order of the model; the Python iterates hash-ordered sets, the harness drives it through every order of "
+    "the worlds and both orders of district nodes / exchanged keys and additionally once unpatched",
+    "the models are tied to the code by sampling (this check compares outcome class and walk verdict; C01/C03/C05/C07/C08 "
+    "compare the estimands); theorems speak about the models",
+    "the walk is a runtime check of the inputs generated in this run, not a theorem about the Python; the quantifier's "
+    "input spaces are those of C01, C03, C05, C07, C08 (for ID*/IDC* a dirty estimand on an input outside that space, "
+    "e.g. a cyclic graph, is recorded but not a violation)",
+    "a target-domain term must carry the tag pi*: an untagged P(...) in a TRSO estimand is reported (it is not a term of "
+    "any declared distribution); starred subscripts are not judged by the TRSO clause (a subscript is an experiment on "
+    "that variable whatever its value)",
 ]
 EXHAUSTIVE = {"quick": False, "thorough": False}
-LEANCHECK_MODULES = ["Y0.Props.C06Id"]
+ESCALATED_TIER = "escalated"   # an anchored source changed: three differently seeded quick streams per algorithm
+LEANCHECK_MODULES = ["Y0.Props.C06Id", "Y0.Props.C06Transport", "Y0.Props.C06Cf", "Y0.Props.C06"]
+TRANSPORT_PREFIX = "T_"
 
 
-# ------------------------------------------------------------------------------------------ vocabulary walks
+# ------------------------------------------------------------------------------------------ walks over real outputs
 
 
 def _walk(e):
     """yields ('P', probability) / ('range', variable) / ('other', node) for every leaf / range of the tree"""
     from y0.dsl import Fraction, One, Probability, Product, Sum, Zero
 
-    if isinstance(e, Probability):
+    if isinstance(e, Probability):          # PopulationProbability is a subclass
         yield "P", e
     elif isinstance(e, Product):
         for x in e.expressions:
@@ -65,8 +113,12 @@ def _plain(v):
     return type(v) is Variable and v.star is None and not isinstance(v, (CounterfactualVariable, Intervention))
 
 
+def _leaf_vars(p):
+    return list(p.children) + list(p.parents)
+
+
 def obs_only(e, node_names):
-    """None when `e` contains only observational terms over `node_names`, else what is wrong"""
+    """ID / IDC: None when `e` contains only observational terms over `node_names`, else what is wrong"""
     from y0.dsl import PopulationProbability
 
     for kind, x in _walk(e):
@@ -78,7 +130,7 @@ def obs_only(e, node_names):
             continue
         if isinstance(x, PopulationProbability):
             return f"population-tagged term {x}"
-        for v in list(x.children) + list(x.parents):
+        for v in _leaf_vars(x):
             if not _plain(v):
                 return f"term {x} mentions the non-observational variable {v!r}"
             if v.name not in node_names:
@@ -86,49 +138,196 @@ def obs_only(e, node_names):
     return None
 
 
-def transport_vocab(e, *, target, domains, experiments, transport_prefix="T_"):
-    """for the transport family: every leaf is target-observational or (π, Z') with π declared and Z' ⊆ Z_π;
-    no leaf or range mentions a selection node.  `experiments`: {population name: set of variable names}"""
-    from y0.dsl import CounterfactualVariable, PopulationProbability
+def _subscripts(v):
+    from y0.dsl import CounterfactualVariable
+
+    return list(v.interventions) if isinstance(v, CounterfactualVariable) else []
+
+
+def transport_vocab(e, *, target, experiments, node_names, transport_prefix=TRANSPORT_PREFIX):
+    """TRSO: every leaf is a target observational term or a term of a declared source domain under a subset of THAT
+    domain's declared experiments; nothing mentions a selection node or a name outside the user's graph.
+    `target`: name of the target population; `experiments`: {population name: set of variable names}"""
+    from y0.dsl import Intervention, PopulationProbability
+
+    def foreign(name):
+        if name.startswith(transport_prefix):
+            return f"the selection node {name}"
+        if name not in node_names:
+            return f"{name}, not a node of the user's graph"
+        return None
+
+    def bad_variable(v):
+        if isinstance(v, Intervention):
+            return f"the bare value {v!r} (not a random variable)"
+        for name in [v.name] + [i.name for i in _subscripts(v)]:
+            m = foreign(name)
+            if m:
+                return m
+        return None
 
     for kind, x in _walk(e):
         if kind == "other":
-            return f"non-probability leaf {type(x).__name__}"
+            return f"non-probability leaf {type(x).__name__}: {x}"
         if kind == "range":
-            if x.name.startswith(transport_prefix):
-                return f"sum ranges over the selection node {x.name}"
+            m = bad_variable(x)
+            if m:
+                return f"sum ranges over {x!r}: mentions {m}"
             continue
-        pop = x.population.name if isinstance(x, PopulationProbability) else target
-        if pop != target and pop not in domains:
+        for v in _leaf_vars(x):
+            m = bad_variable(v)
+            if m:
+                return f"term {x} mentions {m}"
+        if not isinstance(x, PopulationProbability):
+            return f"term {x} carries no population tag: it is a term of no declared distribution"
+        pop = x.population.name
+        worlds = {frozenset(i.name for i in _subscripts(v)) for v in _leaf_vars(x)}
+        if len(worlds) > 1:
+            return f"term {x} mixes variables under {len(worlds)} different experiments"
+        do = next(iter(worlds)) if worlds else frozenset()
+        if pop == target:
+            if do:
+                return (f"term {x} is a target-domain term under an intervention on {sorted(do)}; only the observational "
+                        "distribution of the target domain is available")
+        elif pop in experiments:
+            extra = do - set(experiments[pop])
+            if extra:
+                return (f"term {x} is a term of domain {pop} under an experiment on {sorted(do)}, but the experiments "
+                        f"declared for {pop} are {sorted(experiments[pop])} ({sorted(extra)} not declared)")
+        else:
             return f"term {x} is tagged with the undeclared population {pop}"
-        ivs = set()
-        for v in list(x.children) + list(x.parents):
-            if v.name.startswith(transport_prefix):
-                return f"term {x} mentions the selection node {v.name}"
-            if isinstance(v, CounterfactualVariable):
-                ivs |= {i.name for i in v.interventions}
-        allowed = set(experiments.get(pop, set()))
-        if not ivs <= allowed:
-            return f"term {x} intervenes on {sorted(ivs - allowed)}, not among the experiments of {pop}"
     return None
 
 
 def single_world_vocab(e):
-    """for ID* / IDC*: all variables of one leaf carry the same set of interventions"""
-    from y0.dsl import CounterfactualVariable
-
+    """ID* / IDC*: all variables of one leaf (children and conditioning side) carry the same set of subscripts"""
     for kind, x in _walk(e):
+        if kind == "other":
+            return f"non-probability leaf {type(x).__name__}: {x}"
         if kind != "P":
             continue
-        worlds = set()
-        for v in list(x.children) + list(x.parents):
-            worlds.add(frozenset((i.name, i.star) for i in v.interventions) if isinstance(v, CounterfactualVariable) else frozenset())
+        worlds = {frozenset((i.name, bool(i.star)) for i in _subscripts(v)) for v in _leaf_vars(x)}
         if len(worlds) > 1:
             return f"term {x} mixes {len(worlds)} worlds"
     return None
 
 
-# ------------------------------------------------------------------------------------------ sources
+# ------------------------------------------------------------------------------------------ the same walks on encodings
+# encoded var ["v", name, star, isIntervention, [[name, "m"|"p"], ...]] ; expr see harness/enc_expr.py (all atoms strings)
+
+
+def _enc_walk(x):
+    if isinstance(x, str):
+        if x not in ("one", "zero"):
+            yield "other", x
+        return
+    t = x[0] if x else None
+    if t == "P":
+        yield "P", (None, list(x[1]) + list(x[2]))
+    elif t == "PP":
+        yield "P", (x[1], list(x[2]) + list(x[3]))
+    elif t == "sum":
+        for v in x[1]:
+            yield "range", v
+        yield from _enc_walk(x[2])
+    elif t == "prod":
+        for f in x[1:]:
+            yield from _enc_walk(f)
+    elif t == "frac":
+        yield from _enc_walk(x[1])
+        yield from _enc_walk(x[2])
+    else:
+        yield "other", x
+
+
+def _enc_plain(v, nodes):
+    return str(v[2]) == "n" and str(v[3]) == "0" and not v[4] and str(v[1]) in nodes
+
+
+def _enc_obs_only(enc, case):
+    nodes = {str(v) for v in G.all_nodes(case["g"])}
+    for kind, x in _enc_walk(enc):
+        if kind == "other":
+            return f"constructor {x}"
+        if kind == "range":
+            if not _enc_plain(x, nodes):
+                return f"range {x}"
+            continue
+        pop, vs = x
+        if pop is not None:
+            return f"population-tagged leaf {pop}"
+        for v in vs:
+            if not _enc_plain(v, nodes):
+                return f"variable {v}"
+    return None
+
+
+def _is_selection(name):
+    return 200 <= int(name) < 300      # gen_graph.vname: 200..299 are the T_… names
+
+
+def _enc_transport_vocab(enc, case):
+    nodes = {int(v) for v in G.all_nodes(case["g"])}
+    decl = {TARGET + 1 + k: set(Z) for k, (Z, _W) in enumerate(case["domains"])}
+
+    def bad_variable(v):
+        if str(v[3]) == "1":
+            return f"bare value {v}"
+        for name in [v[1]] + [a for a, _ in v[4]]:
+            if _is_selection(name):
+                return f"selection node {name}"
+            if int(name) not in nodes:
+                return f"{name} outside the graph"
+        return None
+
+    for kind, x in _enc_walk(enc):
+        if kind == "other":
+            return f"constructor {x}"
+        if kind == "range":
+            m = bad_variable(x)
+            if m:
+                return f"range {x}: {m}"
+            continue
+        pop, vs = x
+        for v in vs:
+            m = bad_variable(v)
+            if m:
+                return f"leaf mentions {m}"
+        if pop is None:
+            return "leaf without a population tag"
+        p = int(pop[1])
+        worlds = {frozenset(int(a) for a, _ in v[4]) for v in vs}
+        if len(worlds) > 1:
+            return "leaf mixes experiments"
+        do = next(iter(worlds)) if worlds else frozenset()
+        if p == TARGET:
+            if do:
+                return f"target leaf under do({sorted(do)})"
+        elif p in decl:
+            if not do <= decl[p]:
+                return f"leaf of domain {p} under do({sorted(do)}), declared {sorted(decl[p])}"
+        else:
+            return f"undeclared population {p}"
+    return None
+
+
+def _enc_single_world(enc, case=None):
+    for kind, x in _enc_walk(enc):
+        if kind == "other":
+            return f"constructor {x}"
+        if kind != "P":
+            continue
+        worlds = {frozenset((int(a), str(s) == "p") for a, s in v[4]) for v in x[1]}
+        if len(worlds) > 1:
+            return f"leaf mixes {len(worlds)} worlds"
+    return None
+
+
+def _verdict(msg):
+    return "clean" if msg is None else "dirty"
+
+
+# ------------------------------------------------------------------------------------------ ID and IDC
 
 
 def _id_cases(rng, tier):
@@ -153,98 +352,426 @@ def _obs_pred(expr, case):
     return obs_only(expr, names)
 
 
-SOURCES = [
-    # (name, case generator, runner -> run record with "expr"/"out"/"lines", vocabulary predicate, request, canon_model)
-    ("id", _id_cases, _id_run, _obs_pred, c01.request, None),
-    ("idc", _idc_cases, _idc_run, _obs_pred, c03.request, None),
+def _std_py(name, run):
+    def py(case):
+        r = run(case)
+        fail = None
+        verdict = "n/a"
+        if r["exc"] is None:
+            fail = _obs_pred(r["expr"], case)
+            verdict = _verdict(fail)
+            if fail:
+                fail = f"{name}: estimand outside the analyst's vocabulary: {fail}"
+        out = [r["out"][0], verdict] if r["out"][0] == "ok" else r["out"]
+        tags = {"source": name, "outcome": "ok" if r["exc"] is None else r["exc"], "n_nodes": len(G.all_nodes(case["g"]))}
+        tags.update(R.line_tags(r["lines"]))
+        nontrivial = r["exc"] is None and any(k in r["lines"] for k in "4567")
+        return {"out": out, "fail": fail, "nontrivial": nontrivial, "tags": tags}
+    return py
+
+
+def _std_model(case, rep):
+    m = R.model_out(rep)
+    if m[0] != "ok":
+        return m
+    return ["ok", _verdict(_enc_obs_only(m[1], case))]
+
+
+def _std_shrink(mod, name):
+    def shrink(case):
+        for c in mod.shrink(case):
+            yield dict(c, src=name)
+    return shrink
+
+
+def _std_key(mod, name):
+    return lambda case, res: name + ":" + mod.finding_key(case, res)
+
+
+# ------------------------------------------------------------------------------------------ TRSO
+
+# two source domains that pass line 6 together (A=0 B=1 C=2 D=3); both insertion orders are generated from each
+_TWO_DOMAIN_SEEDS = [
+    # chain A -> B -> C with A <-> C ; P*(C | do(B)) ; pi1 experiments on A, pi2 on A and B
+    {"g": {"nodes": [], "di": [[0, 1], [1, 2]], "bi": [[0, 2]]}, "X": [1], "Y": [2], "domains": [[[0], [1, 2]], [[0, 1], [2]]]},
+    {"g": {"nodes": [], "di": [[0, 2], [1, 0], [1, 2]], "bi": []}, "X": [1], "Y": [2], "domains": [[[0], [1, 2]], [[0, 1], [2]]]},
+    {"g": {"nodes": [], "di": [[0, 1], [3, 1]], "bi": [[0, 1]]}, "X": [0, 3], "Y": [1], "domains": [[[0], [1]], [[0, 3], [1]]]},
+    {"g": {"nodes": [], "di": [[0, 1], [1, 2], [3, 2]], "bi": [[0, 2]]}, "X": [1, 3], "Y": [2],
+     "domains": [[[1], [2]], [[1, 3], [2]]]},
 ]
-_SRC = {s[0]: s for s in SOURCES}
+
+
+def _trso_case(g, X, Y, domains, seed=0):
+    return {"kind": "identify", "g": g, "X": sorted(X), "Y": sorted(Y), "domains": domains, "eval_seed": seed, "src": "trso"}
+
+
+def _two_domain_cases(rng, n):
+    """TWO source domains sharing an experimental variable `a` with the target interventions; the first declares a
+    strict subset of the second's experiments; surrogate outcomes generous (so that few selection nodes appear and line 6
+    lets both through); every draw in both insertion orders"""
+    out = []
+    for s in _TWO_DOMAIN_SEEDS:
+        out.append(_trso_case(s["g"], s["X"], s["Y"], [list(d) for d in s["domains"]], 5))
+        out.append(_trso_case(s["g"], s["X"], s["Y"], [list(d) for d in reversed(s["domains"])], 5))
+    while len(out) < n:
+        g = G.rand_graph(rng, 3, 5, acyclic=True, pd=rng.choice([0.4, 0.6, 0.8]), pb=rng.choice([0.0, 0.15, 0.3]))
+        nodes = G.all_nodes(g)
+        if len(nodes) < 3:
+            continue
+        perm = nodes[:]
+        rng.shuffle(perm)
+        nx_ = rng.randint(1, min(2, len(nodes) - 1))
+        X, Y = perm[:nx_], perm[nx_:nx_ + 1]
+        a = rng.choice(X)
+        pool = [v for v in nodes if v != a and v not in Y]
+        if not pool:
+            continue
+        pref = [v for v in pool if v in X] or pool
+        extra = {rng.choice(pref if rng.random() < 0.6 else pool)}
+        if rng.random() < 0.25:
+            extra.add(rng.choice(pool))
+        common = {a} | ({rng.choice(pool)} - extra if rng.random() < 0.15 else set())
+        z_small, z_big = sorted(common), sorted(common | extra)
+
+        def outcomes(Z):
+            r = rng.random()
+            if r < 0.5:
+                return sorted(set(nodes) - set(Z))
+            if r < 0.8:
+                return sorted(set(Y) | {v for v in nodes if v not in Z and rng.random() < 0.5})
+            return sorted(Y)
+        doms = [[z_small, outcomes(z_small)], [z_big, outcomes(z_big)]]
+        seed = rng.randrange(1 << 30)
+        out.append(_trso_case(g, X, Y, doms, seed))
+        out.append(_trso_case(g, X, Y, [doms[1], doms[0]], seed))
+    return out
+
+
+def _corpus(src):
+    """corpus/C06/*.json: witnesses kept by this check; every case carries its "src" """
+    return [c for c in K.load_corpus(PROP) if c.get("src") == src]
+
+
+def _trso_cases(rng, tier):
+    out = _corpus("trso")
+    out += _two_domain_cases(rng, {"quick": 700, "escalated": 700}.get(tier, 6000))
+    out += [dict(c, src="trso") for c in c05.cases(rng, "quick" if tier == "escalated" else tier)
+            if c["kind"] == "identify" and "malformed" not in c]
+    return out
+
+
+class _TrsoLog(logging.Handler):
+    """records (without changing anything) which lines of TRSO a run reached, from the algorithm's own log messages"""
+
+    def __init__(self):
+        super().__init__()
+        self.reset()
+
+    def reset(self):
+        self.lines, self.several = set(), False
+
+    def emit(self, rec):
+        m = rec.msg if isinstance(rec.msg, str) else ""
+        if "more than one expression" in m:
+            self.several = True
+        mm = re.search(r"algorithm line (\d+)", m)
+        if mm:
+            self.lines.add(int(mm.group(1)))
+
+
+_TRSO_LOG = None
+
+
+def _trso_log():
+    global _TRSO_LOG
+    if _TRSO_LOG is None:
+        _TRSO_LOG = _TrsoLog()
+        lg = logging.getLogger("y0.algorithm.transport")
+        lg.addHandler(_TRSO_LOG)
+        lg.setLevel(logging.DEBUG)
+        lg.propagate = False
+    _TRSO_LOG.reset()
+    return _TRSO_LOG
+
+
+def _trso_run(case):
+    """the real identify_target_outcomes on the case: (outcome class, RAW estimand | None, info)"""
+    T = importlib.import_module("y0.algorithm.transport")
+    g = case["g"]
+    graph = G.to_nx_mixed({"nodes": G.all_nodes(g), "di": g["di"], "bi": g["bi"]})
+    V = G.V
+    so = {V(TARGET + 1 + k): {V(w) for w in W} for k, (_Z, W) in enumerate(case["domains"])}
+    si = {V(TARGET + 1 + k): {V(z) for z in Z} for k, (Z, _W) in enumerate(case["domains"])}
+    log = _trso_log()
+    passed = []                       # how many domains passed the line-6 helper, per call of trso_line6
+    orig6 = getattr(T, "trso_line6", None)
+    if orig6 is not None:
+        def rec6(query):
+            r = orig6(query)
+            passed.append(len(r))
+            return r
+        T.trso_line6 = rec6
+    try:
+        est = T.identify_target_outcomes(graph, target_outcomes={V(y) for y in case["Y"]},
+                                         target_interventions={V(x) for x in case["X"]},
+                                         surrogate_outcomes=so, surrogate_interventions=si)
+        cls = "none" if est is None else "ok"
+    except RecursionError:
+        cls, est = "err", None
+    except Exception:  # noqa: BLE001   (what an exception means is C05's business; here: no estimand was returned)
+        cls, est = "err", None
+    finally:
+        if orig6 is not None:
+            T.trso_line6 = orig6
+    return cls, est, {"lines": sorted(log.lines), "several": log.several, "line6_passed": max(passed, default=0)}
+
+
+def _trso_pred(est, case):
+    nodes = {G.vname(v) for v in G.all_nodes(case["g"])}
+    experiments = {G.vname(TARGET + 1 + k): {G.vname(z) for z in Z} for k, (Z, _W) in enumerate(case["domains"])}
+    return transport_vocab(est, target=G.vname(TARGET), experiments=experiments, node_names=nodes)
+
+
+def _trso_py(case):
+    from y0.dsl import PopulationProbability
+
+    logging.getLogger("y0").setLevel(logging.CRITICAL)
+    cls, est, info = _trso_run(case)
+    fail = None
+    out = [cls]
+    tags = {"source": "trso", "outcome": cls, "n_nodes": len(G.all_nodes(case["g"])), "trso_domains": len(case["domains"]),
+            "trso_lines": ",".join(map(str, info["lines"])), "trso_domains_passing_line6": info["line6_passed"],
+            "trso_several_domains_identified": info["several"]}
+    if cls == "ok":
+        msg = _trso_pred(est, case)
+        out = ["ok", _verdict(msg)]
+        if msg:
+            fail = f"trso: estimand outside the analyst's vocabulary: {msg}; estimand {str(est)[:300]}"
+        tags["trso_uses_source_domain"] = any(
+            k == "P" and isinstance(x, PopulationProbability) and x.population.name != G.vname(TARGET) for k, x in _walk(est))
+    nontrivial = cls == "ok" and bool(set(info["lines"]) & {4, 6, 9, 10})
+    return {"out": out, "fail": fail, "nontrivial": nontrivial, "tags": tags}
+
+
+def _trso_model(case, rep):
+    if rep[0] == "err":
+        return ["err"]
+    if rep[0] == "none":
+        return ["none"]
+    if rep[0] != "ok":
+        return ["bad-reply", rep]
+    return ["ok", _verdict(_enc_transport_vocab(rep[1], case))]
+
+
+def _trso_shrink(case):
+    for c in c05.shrink(case):
+        yield dict(c, src="trso")
+
+
+def _trso_key(case, res):
+    return "trso:" + c05.finding_key(case, res)
+
+
+# ------------------------------------------------------------------------------------------ ID* and IDC*
+
+
+def _idstar_cases(rng, tier):
+    t = "quick" if tier == "escalated" else tier
+    return [dict(c, src="idstar") for c in _corpus("idstar") + c07.cases(rng, t)]
+
+
+def _idcstar_cases(rng, tier):
+    t = "quick" if tier == "escalated" else tier
+    return [dict(c, src="idcstar") for c in _corpus("idcstar") + c08.cases(rng, t)]
+
+
+def _idstar_run(case, strategy):
+    """the real id_star under one iteration order (None: unpatched): (outcome class, RAW estimand | None)"""
+    from y0.algorithm.identify import Unidentifiable
+
+    ids = importlib.import_module("y0.algorithm.identify.id_star")
+    try:
+        graph = G.to_nx_mixed(case["g"])
+        event = K.dec_event(case["event"])
+        with K.fixed_orders(strategy):
+            est = ids.id_star(graph, event)
+    except Unidentifiable:
+        return "unidentifiable", None
+    except RecursionError:
+        return "err", None
+    except Exception:  # noqa: BLE001   (crashes are C07's business; here: no estimand was returned)
+        return "err", None
+    return "ok", est
+
+
+def _idcstar_run(case, strategy):
+    """the real idc_star under one iteration order (None: unpatched): (outcome class, RAW estimand | None)"""
+    from y0.algorithm.identify import Unidentifiable
+
+    idc = importlib.import_module("y0.algorithm.identify.idc_star")
+    try:
+        graph = G.to_nx_mixed(case["g"])
+        outcomes, conditions = K.dec_event(case["outcomes"]), K.dec_event(case["conditions"])
+        with K.fixed_orders_idc(strategy):
+            est = idc.idc_star(graph, outcomes, conditions)
+    except Unidentifiable:
+        return "unidentifiable", None
+    except ValueError as e:
+        return ("rejected" if "ID* algorithm returned 0" in str(e) else "err"), None
+    except RecursionError:
+        return "err", None
+    except Exception:  # noqa: BLE001
+        return "err", None
+    return "ok", est
+
+
+def _cf_py(name, run, strategies_of, in_domain, event_of):
+    def py(case):
+        from y0.dsl import One, Zero
+
+        ev = event_of(case)
+        by_order, fail, shapes = [], None, set()
+        dom = bool(in_domain(case))
+        proper = False
+        for s in list(strategies_of(case)) + [None]:
+            cls, est = run(case, s)
+            msg = None
+            if cls == "ok":
+                msg = single_world_vocab(est)
+                proper = proper or not isinstance(est, (One, Zero))
+                shapes.add(type(est).__name__)
+                if msg and dom and fail is None:
+                    fail = (f"{name}: estimand contains a term that is not single-world: {msg}; estimand {str(est)[:300]}; "
+                            f"iteration order {s if s is not None else 'unpatched'}")
+            else:
+                shapes.add(cls)
+            if s is not None:
+                by_order.append([cls, _verdict(msg)] if cls == "ok" else [cls])
+        g = case["g"]
+        tags = {"source": name, "outcome": by_order[0][0], "n_nodes": len(G.all_nodes(g)), "cf_worlds": K.n_worlds(ev),
+                "cf_in_domain": dom, "cf_answer": ",".join(sorted(shapes)),
+                "cf_order_dependent": any(x != by_order[0] for x in by_order)}
+        nontrivial = dom and proper and K.n_worlds(ev) >= 1 and bool(g["di"] or g["bi"])
+        return {"out": ["orders", by_order], "fail": fail, "nontrivial": bool(nontrivial), "tags": tags}
+    return py
+
+
+def _cf_model(case, rep):
+    if rep[0] != "ok":
+        return ["model-error", rep]
+    out = []
+    for r in rep[1:]:
+        if r[0] == "err":
+            if r[1] == "unidentifiable":
+                out.append(["unidentifiable"])
+            elif r[1] == "invalid" and len(r) > 2 and r[2] == "ImpossibleCondition":
+                out.append(["rejected"])
+            else:
+                out.append(["err"])
+        else:
+            out.append(["ok", _verdict(_enc_single_world(r[1]))])
+    return ["orders", out]
+
+
+def _cf_shrink(name, keys):
+    def shrink(case):
+        for c in K.shrink_event_case(case, keys=keys):
+            yield dict(c, src=name)
+    return shrink
+
+
+def _cf_key(name, keys):
+    def key(case, res):
+        g = case["g"]
+        c = {"g": {"nodes": sorted(G.all_nodes(g)), "di": sorted(map(list, g["di"])), "bi": sorted(sorted(e) for e in g["bi"])}}
+        for k in keys:
+            c[k] = K.sort_event(case[k])
+        return name + ":" + json.dumps(c, sort_keys=True)
+    return key
+
+
+# ------------------------------------------------------------------------------------------ sources
+
+SOURCES = [
+    {"name": "id", "cases": _id_cases, "py": _std_py("id", _id_run), "request": c01.request, "model": _std_model,
+     "shrink": _std_shrink(c01, "id"), "key": _std_key(c01, "id")},
+    {"name": "idc", "cases": _idc_cases, "py": _std_py("idc", _idc_run), "request": c03.request, "model": _std_model,
+     "shrink": _std_shrink(c03, "idc"), "key": _std_key(c03, "idc")},
+    {"name": "trso", "cases": _trso_cases, "py": _trso_py, "request": c05.request, "model": _trso_model,
+     "shrink": _trso_shrink, "key": _trso_key},
+    {"name": "idstar", "cases": _idstar_cases,
+     "py": _cf_py("idstar", _idstar_run, lambda c: K.id_strategies(c["event"]), c18._in_domain, lambda c: c["event"]),
+     "request": c07.request, "model": _cf_model, "shrink": _cf_shrink("idstar", ("event",)), "key": _cf_key("idstar", ("event",))},
+    {"name": "idcstar", "cases": _idcstar_cases,
+     "py": _cf_py("idcstar", _idcstar_run, lambda c: K.id_strategies(c08.joint(c)), c08._in_domain, c08.joint),
+     "request": c08.request, "model": _cf_model, "shrink": _cf_shrink("idcstar", ("outcomes", "conditions")),
+     "key": _cf_key("idcstar", ("outcomes", "conditions"))},
+]
+_SRC = {s["name"]: s for s in SOURCES}
 
 
 def cases(rng: random.Random, tier: str):
     out = []
-    for name, gen, *_ in SOURCES:
+    for src in SOURCES:
         sub = random.Random(rng.randrange(1 << 30))
-        out.extend(gen(sub, tier))
+        if tier != "escalated":
+            out.extend(src["cases"](sub, tier))
+            continue
+        # an anchored source file changed: three differently seeded quick streams (corpus / structured heads once)
+        seen = set()
+        for k in range(3):
+            gen_tier = "escalated" if src["name"] == "trso" else "quick"
+            for c in src["cases"](random.Random(sub.randrange(1 << 30)), gen_tier):
+                key = json.dumps(c, sort_keys=True)
+                if key not in seen:
+                    seen.add(key)
+                    out.append(c)
     return out
 
 
-def _model_walk(enc, case):
-    """the same walk on an encoded (model) expression: returns None | message"""
-    nodes = {str(v) for v in G.all_nodes(case["g"])}
-
-    def go(x):
-        if not isinstance(x, list):
-            return None if x in ("one", "zero") else f"leaf {x}"
-        t = x[0]
-        if t == "P":
-            for v in x[1] + x[2]:
-                if v[2] != "n" or v[3] != "0" or v[4] or v[1] not in nodes:
-                    return f"variable {v}"
-            return None
-        if t == "sum":
-            for v in x[1]:
-                if v[2] != "n" or v[3] != "0" or v[4] or v[1] not in nodes:
-                    return f"range {v}"
-            return go(x[2])
-        if t == "prod":
-            for f in x[1:]:
-                m = go(f)
-                if m:
-                    return m
-            return None
-        if t == "frac":
-            return go(x[1]) or go(x[2])
-        return f"constructor {t}"
-    return go(enc)
-
-
 def run_python(case):
-    name, _gen, run, pred, _req, _ = _SRC[case["src"]]
-    r = run(case)
-    fail = None
-    verdict = "n/a"
-    if r["exc"] is None:
-        fail = pred(r["expr"], case)
-        verdict = "clean" if fail is None else "dirty"
-        if fail:
-            fail = f"{name}: estimand outside the analyst's vocabulary: {fail}"
-    out = [r["out"][0], verdict] if r["out"][0] == "ok" else r["out"]
-    tags = {"source": name, "outcome": "ok" if r["exc"] is None else r["exc"], "n_nodes": len(G.all_nodes(case["g"]))}
-    tags.update(R.line_tags(r["lines"]))
-    nontrivial = r["exc"] is None and any(k in r["lines"] for k in "4567")
-    return {"out": out, "fail": fail, "nontrivial": nontrivial, "tags": tags}
+    return _SRC[case["src"]]["py"](case)
 
 
 def request(case):
-    return _SRC[case["src"]][4](case)
+    return _SRC[case["src"]]["request"](case)
 
 
 def canon_model(case, rep):
-    m = R.model_out(rep)
-    if m[0] != "ok":
-        return m
-    return ["ok", "clean" if _model_walk(m[1], case) is None else "dirty"]
+    return _SRC[case["src"]]["model"](case, rep)
 
 
 def shrink(case):
-    mod = c01 if case["src"] == "id" else c03
-    for c in mod.shrink(case):
-        yield dict(c, src=case["src"])
+    yield from _SRC[case["src"]]["shrink"](case)
 
 
 def finding_key(case, res):
-    mod = c01 if case["src"] == "id" else c03
-    return case["src"] + ":" + mod.finding_key(case, res)
+    return _SRC[case["src"]]["key"](case, res)
 
 
 MANIFEST = {
-    "text": ("ID / IDC: Lean theorems id_vocab, identifyOutcomes_vocab (and idc_vocab) — invariants of the recursion of "
-             "the models: every returned estimand contains only plain observational P(…) terms and sums over nodes of "
-             "the user's graph, no subscripts, no starred/counterfactual variables, no Q-factors. Every run also walks "
-             "the real outputs of ID and IDC syntactically. The transport / ID* / IDC* vocabularies are decided by the "
-             "walks registered in SOURCES by their families."),
-    "note": ("Trusted: Lean kernel; the hand-written models tied to the code by the C01/C03 correspondence; the only "
-             "assumption about networkx is that topological_sort lists nodes of the graph."),
-    "technique": "Lean 4 invariant theorems over the models' recursions + syntactic walk of the real outputs",
+    "text": ("Lean theorems, one group per algorithm, each an invariant of the recursion of the executable model "
+             "(42 theorems: Props/C06Id, C06Transport, C06Cf, and the summary Props/C06): "
+             "ID / IDC — id_vocab, identifyOutcomes_vocab, idc_vocab: every returned estimand contains only plain "
+             "observational P(...) terms and sums over nodes of the user's graph: no population tag, no subscripts, no "
+             "starred / counterfactual variables, no Q-factors; "
+             "TRSO — trso_vocab (with activate_vocab, trsoF_vocab_target / _source, trso_vocab_no_domains): every leaf is a "
+             "target observational term over plain variables or a term of a DECLARED source domain all of whose variables "
+             "carry the same non-empty subscript set, a subset of that domain's declared experiments; no leaf and no Sum "
+             "range is a selection node; "
+             "ID* / IDC* — idstar_vocab, idstar_vocab_fuel, idcstar_vocab_c06: in every leaf all variables carry the same "
+             "subscript set (one interventional world), for every graph, event, fuel and iteration order. "
+             "c06_id_idc, c06_transport, c06_counterfactual restate the three clauses in the property's words. "
+             "Every run walks the RAW estimands returned by the real identify / idc / identify_target_outcomes / id_star / "
+             "idc_star (all leaves, conditioning sides, Sum ranges, fraction parts) with predicates written from the "
+             "property text, and compares outcome class and walk verdict with the model's output for the same query. "
+             "Not in the Lean statement for TRSO and decided by the walk only: every mentioned name is a node of the "
+             "user's graph."),
+    "note": ("Trusted: Lean kernel; axioms propext/Classical.choice/Quot.sound; the hand-written models tied to the code by "
+             "the correspondences of C01/C03/C05/C07/C08 (estimands) and of this check (outcome class + vocabulary "
+             "verdict); the only assumption about networkx is that topological_sort lists nodes of the graph; the "
+             "Python iterates hash-ordered sets: ID*/IDC* are driven through every order of the worlds and both orders "
+             "of district nodes / exchanged keys."),
+    "technique": ("Lean 4 invariant theorems over the models' recursions + syntactic walk of the real outputs of all "
+                  "five algorithms + differential comparison of the walk verdicts with the models"),
 }
